@@ -101,8 +101,9 @@ structure Inputs where
   globals : V
   args : List V
 
-/-- `VM.Run(globals, args…)` on a new VM for `bc`: the outcome the embedder sees -/
-def run (F : FloatOps) (H : Host) (bc : BC) (i : Inputs) : Outcome :=
-  (runFrom F i.fuel i.globals i.args (load H bc)).1
+/-- `VM.Run(globals, args…)` on a new VM for `bc`: the outcome the embedder sees, together with
+    the final VM state (heap, globals, module cache: what the returned value points into) -/
+def run (F : FloatOps) (H : Host) (bc : BC) (i : Inputs) : Outcome × State :=
+  runFrom F i.fuel i.globals i.args (load H bc)
 
 end UgoVerif.Spec.EncVM
